@@ -403,4 +403,15 @@ example : (traceRun DState.init [.writeCtx, .requestDo, .writePipe, .writeDone, 
     .requestCloseReady, .readReady, .readBody, .readDone, .closeRead]).isSome = true := by decide
 example : traceRun DState.init [.writeCtx, .requestDo, .closeRead, .requestDone, .requestCloseReady] = none := by decide
 
+/-- **trailers_only_failure_not_sticky_on_pinned** (history, F42): for a response with
+    `Grpc-Status` among its headers the pinned `Receive` did not record a failure: message,
+    undecodable message, message was delivered as message, failure, *message*. On the repaired
+    tree such a response is a list of items like any other and `receive_error_sticky` covers it. -/
+theorem trailers_only_failure_not_sticky_on_pinned :
+    receiveManyTrailersOnlyPinned 3 { stored := none, items := [.ok [1], .bad codeInvalidArgument, .ok [2]] } =
+      [.msg [1], .fail codeInvalidArgument, .msg [2]] ∧
+    receiveMany 3 { stored := none, items := [.ok [1], .bad codeInvalidArgument, .ok [2]] } =
+      [.msg [1], .fail codeInvalidArgument, .fail codeInvalidArgument] := by
+  constructor <;> rfl
+
 end ConnectModel.C14
